@@ -52,6 +52,8 @@ var cleanTreePool = []string{
 	"gen/report[1].txt", "gen/report1.txt", "gen/q?.txt", "gen/qa.txt",
 	// symbolic links ("name->target"): an output that is a link designates the link, not its target
 	"latest->bin", "current.txt->README.md",
+	// hidden entries: never matched by a glob, and they hide nothing that sorts after them
+	".git/config", ".a.tmp", ".cache.d/x.tmp", "z.tmp",
 }
 var cleanLiteralPool = []string{"bin/app", "dist", "a/b/c.out", "missing/file", "", ".", "./", "..", "../..", "spokfile", "bin", "src/main.c", "emptyd", "bin/app.sha256", "build", "build.log", "dist.tar", "gen/report[1].txt", "gen/q?.txt", "latest", "current.txt"}
 var cleanNamedPool = []NamedOut{
